@@ -1,5 +1,7 @@
 import TbbVerif.Core.Proto
 import TbbVerif.Model.C16
+import TbbVerif.Model.C16Iso
+import TbbVerif.Model.C16Mand
 
 open TbbVerif TbbVerif.C16 TbbVerif.Proto
 
@@ -208,12 +210,285 @@ def drivePend (d : PD) (ws : List String) : PD × String :=
 
 end C16Drv
 
+/-! ### `c16mand`: trace replay of `advertise_new_work` / `out_of_work` (every access to the two flag words) -/
+
+namespace MandDrv
+open TbbVerif.C16.Mand
+
+structure MD where
+  cfg : MCfg := { numSlots := 0, reserved := 0, maxWorkers := 0 }
+  st : MSt := { sh := { arena := { id := 0, maxNumWorkers := 0 } }, ths := [] }
+
+def flagVal : Flag → Nat
+  | .unset => 0
+  | .set => 1
+  | .busy t => 2 + t
+
+def varName (m : Bool) : String := if m then "mand" else "pool"
+
+def setTh (d : MD) (t : Nat) (th : MTh) : MD := { d with st := { d.st with ths := d.st.ths.set t th } }
+
+/-- the steps that touch no named variable: the pool predicate (oracle), the two critical sections of adjust_demand -/
+def isSilent : Pc → Bool
+  | .clrPred false => true
+  | .reqSer => true
+  | .reqMkt => true
+  | _ => false
+
+/-- run thread `t`'s silent steps; `poolPredWanted`: what the pool predicate must evaluate to (read off the next CAS) -/
+def runSilent (d : MD) (t : Nat) (poolPredWanted : Bool) : Nat → MD
+  | 0 => d
+  | fuel + 1 =>
+    match d.st.ths[t]? with
+    | some th =>
+      if isSilent th.pc then
+        let th1 := if th.pc == .clrPred false then
+            (if Generated.C16.oowPoolPred true == poolPredWanted then { th with hasTasks := true } else { th with hasTasks := false })
+          else th
+        let d1 := setTh d t th1
+        runSilent { d1 with st := d1.st.step d1.cfg t } t poolPredWanted fuel
+      else d
+    | none => d
+
+/-- a pending `popFifo` whose pop did not empty its lane never shows on the population word: it is a no-op -/
+def flushPop (d : MD) (t : Nat) : MD :=
+  match d.st.ths[t]? with
+  | some th =>
+    if th.pc == .idle then
+      match th.prog with
+      | .popFifo _ :: rest => setTh d t { th with prog := rest }
+      | _ => d
+    else d
+  | none => d
+
+/-- the access thread `t` performs next, in the canonical form of the harness -/
+def expected (d : MD) (t : Nat) : String :=
+  match d.st.ths[t]? with
+  | none => "bad-tid"
+  | some th0 =>
+    let th := if th0.pc == .idle then beginAct d.cfg th0 else th0
+    let sh := d.st.sh
+    match th.pc with
+    | .idle => s!"{t} none"
+    | .push => if th.adv then s!"{t} or fifo" else s!"{t} and fifo {if th.enq then 0 else 1}"
+    | .tasLoad m => s!"{t} load {varName m} {flagVal (sh.flag m)}"
+    | .tasCasU m => if sh.flag m = .unset then s!"{t} cas {varName m} 0 1 1" else s!"{t} cas {varName m} 0 {flagVal (sh.flag m)} 0"
+    | .tasCasB m seen =>
+      if sh.flag m = seen then s!"{t} cas {varName m} {flagVal seen} 1 1" else s!"{t} cas {varName m} {flagVal seen} {flagVal (sh.flag m)} 0"
+    | .clrLoad m => s!"{t} load {varName m} {flagVal (sh.flag m)}"
+    | .clrCas m => if sh.flag m = .set then s!"{t} cas {varName m} 1 {2 + t} 1" else s!"{t} cas {varName m} 1 {flagVal (sh.flag m)} 0"
+    | .clrPred true => s!"{t} load fifo {if sh.hasEnq then 1 else 0}"
+    | .clrPred false => s!"{t} silent"
+    | .clrFin m p =>
+      if sh.flag m = .busy t then s!"{t} cas {varName m} {2 + t} {if p then 0 else 1} 1"
+      else s!"{t} cas {varName m} {2 + t} {flagVal (sh.flag m)} 0"
+    | .reqSer => s!"{t} silent"
+    | .reqMkt => s!"{t} silent"
+    | .testLoad => s!"{t} load mand {flagVal sh.mand}"
+
+def showState (d : MD) : String :=
+  let sh := d.st.sh
+  let fb (f : Flag) : Nat := if f = .unset then 0 else 1
+  s!"mand={fb sh.mand} pool={fb sh.pool} hasEnq={if sh.hasEnq then 1 else 0} mandReq={sh.arena.mandReq} totalReq={sh.arena.totalReq} " ++
+  s!"minW={sh.arena.minW} maxW={sh.arena.maxW} marketMand={sh.marketMand} proxyMand={sh.proxyMand} idle={showBool (d.st.ths.all (·.pc == .idle))}"
+
+def addAct (d : MD) (t : Nat) (a : Act) : MD :=
+  match d.st.ths[t]? with
+  | some th => setTh d t { th with prog := th.prog ++ [a] }
+  | none => d
+
+def drive (d : MD) (ws : List String) : MD × String :=
+  match ws with
+  | ["cfg", ns, rs, mw, nt] =>
+    match nat? ns, nat? rs, nat? mw, nat? nt with
+    | some ns, some rs, some mw, some nt =>
+      let cfg : MCfg := { numSlots := ns, reserved := rs, maxWorkers := mw }
+      ({ cfg := cfg, st := (mandSys cfg (List.replicate nt [])).init }, "ok")
+    | _, _, _, _ => (d, "bad-op")
+  | [t, "act", code] =>
+    match nat? t, nat? code with
+    | some t, some code =>
+      let d1 := flushPop (runSilent d t false 8) t
+      match (match code with | 1 => some Act.enqueue | 2 => some Act.spawn | 3 => some (Act.oow false) | 4 => some (Act.popFifo false) | _ => none) with
+      | some a =>
+        match d1.st.ths[t]? with
+        | some th => if th.pc == .idle && th.prog.isEmpty then (addAct d1 t a, s!"{t} act {code}") else (d1, s!"{t} busy")
+        | none => (d, "bad-tid")
+      | none => (d, "bad-op")
+    | _, _ => (d, "bad-op")
+  | ["tail", pops, ht] =>
+    -- the sequential tail of the harness: `pops` tasks are popped (the last one empties the stream), then out_of_work() with has_tasks() = ht
+    match nat? pops, nat? ht, d.st.ths[0]? with
+    | some pops, some ht, some _ =>
+      let d0 := (List.range d.st.ths.length).foldl (fun acc t => flushPop (runSilent acc t false 8) t) d
+      let acts := (List.range pops).map (fun i => Act.popFifo (i + 1 == pops)) ++ [Act.oow (ht != 0)]
+      let d1 := acts.foldl (fun acc a => addAct acc 0 a) d0
+      let d2 := (List.range 40).foldl (fun acc _ => { acc with st := acc.st.step acc.cfg 0 }) d1
+      (d2, showState d2)
+    | _, _, _ => (d, "bad-op")
+  | t :: kind :: var :: rest =>
+    match nat? t with
+    | some t =>
+      -- oracle of the pool predicate: a successful final CAS of try_clear_if writes UNSET (0) iff the predicate was true
+      let wanted := match kind, var, rest with
+        | "cas", "pool", [_, des, "1"] => des == "0"
+        | _, _, _ => false
+      let d1 := runSilent d t wanted 8
+      -- oracle of popFifo: the population word after the fetch_and
+      let d2 := match kind, var, rest, d1.st.ths[t]? with
+        | "and", "fifo", [z], some th =>
+          (match th.pc, th.prog with
+           | .idle, .popFifo _ :: tl => setTh d1 t { th with prog := .popFifo (z == "0") :: tl }
+           | _, _ => d1)
+        | _, _, _, _ => d1
+      let line := expected d2 t
+      let d3 := { d2 with st := d2.st.step d2.cfg t }
+      (runSilent d3 t false 0, line)
+    | none => (d, "bad-op")
+  | ["check"] =>
+    let d0 := (List.range d.st.ths.length).foldl (fun acc t => flushPop (runSilent acc t false 8) t) d
+    (d0, showState d0)
+  | _ => (d, "bad-op")
+
+end MandDrv
+
+/-! ### `c16iso`: the puppet protocol of harness/c16/rt.cpp (`rt iso`): one operation per line on a real arena -/
+
+namespace IsoDrv
+open TbbVerif.C16.Iso TbbVerif.Generated.C16
+
+structure ID where
+  n : Nat := 0
+  st : ISt := ISt.init 0
+
+def showEntry : Option Entry → String
+  | none => "-"
+  | some (.plain x) => s!"t{x.id}"
+  | some (.proxy p) => s!"p{p.pid}"
+
+def sortNat (l : List Nat) : List Nat := (l.toArray.qsort (· < ·)).toList
+
+def dump (s : ISt) : String :=
+  "pools " ++ " ".intercalate (s.pools.map (fun p => "[" ++ " ".intercalate (p.map showEntry) ++ "]")) ++
+  " mail " ++ " ".intercalate (s.mail.map (fun b => "[" ++ " ".intercalate (b.map (fun p => s!"p{p.pid}")) ++ "]")) ++
+  " fifo {" ++ " ".intercalate ((sortNat (s.fifo.map (·.id))).map toString) ++ "}" ++
+  " crit {" ++ " ".intercalate ((sortNat (s.crit.map (·.id))).map toString) ++ "}" ++
+  " idle " ++ " ".intercalate (s.idle.map (fun b => if b then "1" else "0"))
+
+/-- result of a take: did the log grow? -/
+def took (s s' : ISt) (t : Nat) : Option String :=
+  if s'.log.length > s.log.length then
+    match s'.log.getLast?, s'.ths[t]? with
+    | some e, some th => some s!"got {e.task.id} ed {th.ed}"
+    | _, _ => some "got ?"
+  else none
+
+def idxOf (l : List Task) (id : Int) : List Nat :=
+  match (List.range l.length).filter (fun k => match l[k]? with | some x => (x.id : Int) == id | none => false) with
+  | [] => List.range l.length      -- the implementation found nothing / something else: the model tries every position
+  | ks => ks
+
+/-- try the candidates in order until one is taken -/
+def tryPop (s : ISt) (t : Nat) (mk : Nat → IOp) : List Nat → ISt × Option String
+  | [] => (s, none)
+  | k :: ks =>
+    let s' := s.step (mk k)
+    match took s s' t with
+    | some r => (s', some r)
+    | none => tryPop s t mk ks
+
+/-- one pass of `receive_or_steal_task` with `critical_allowed = false`, in the coded order -/
+def idlePass (s : ISt) (t v : Nat) (fa : Bool) (hint : Int) (i : Nat) : ISt × String :=
+  let s0 := s.step (.setIdle t true)
+  -- get_inbox_or_critical_task
+  let (s1, r1) :=
+    if (s0.mail.getD t []).isEmpty then (s0, none)
+    else
+      let s' := s0.step (.mailbox t)
+      match took s0 s' t with
+      | some r => (s', some r)
+      | none =>
+        let iso1 := isoArgMail1 (isoArgIdle i)
+        if iso1 != 0 && !(s'.mail.getD t []).isEmpty && s'.idle.getD t false then (s'.step (.setIdle t false), none) else (s', none)
+  -- (resume stream: empty in the puppet)  fifo stream, then stealing
+  let (s2, r2) := match r1 with
+    | some r => (s1, some r)
+    | none =>
+      if isoFifoOk fa (argFifo i) && !s1.fifo.isEmpty then tryPop s1 t (fun k => .popFifo t fa k) (idxOf s1.fifo hint)
+      else (s1, none)
+  let (s3, r3) := match r2 with
+    | some r => (s2, some r)
+    | none =>
+      let s' := s2.step (.steal t v)
+      (s', took s2 s' t)
+  let s4 := if s3.idle.getD t false then s3.step (.setIdle t false) else s3
+  (s4, r3.getD "none")
+
+def curLoopOf (s : ISt) (t : Nat) : Option (Nat × Nat) := (s.ths[t]?).bind Th.curLoop
+
+def drive (d : ID) (ws : List String) : ID × String :=
+  let s := d.st
+  match ws with
+  | ["cfg", n] =>
+    match nat? n with
+    | some n => if d.n == 0 && 2 ≤ n && n ≤ 8 then ({ n := n, st := ISt.init n }, "ok") else (d, "bad-op")
+    | none => (d, "bad-op")
+  | ["check"] => if d.n == 0 then (d, "bad-op") else (d, dump s)
+  | op :: t :: rest =>
+    match nat? t with
+    | none => (d, "bad-op")
+    | some t =>
+      if t ≥ d.n then (d, "bad-op") else
+      let th := s.ths.getD t {}
+      let ok (s' : ISt) : ID × String := ({ d with st := s' }, "ok")
+      let spawned (s' : ISt) : ID × String :=
+        match s'.spawned.getLast? with
+        | some x =>
+          let ptag := match (s'.pools.getD t []).getLast? with
+            | some (some (.proxy p)) => if p.task.id == x.id then s!" ptag {p.ptag}" else ""
+            | _ => ""
+          ({ d with st := s' }, s!"task {x.id} tag {x.tag}{ptag}")
+        | none => (d, "bad-op")
+      match op, rest with
+      | "wait", [] => ok (s.step (.wait t))
+      | "endwait", [] => (match th.stack with | .loop .. :: _ => ok (s.step (.endWait t)) | _ => (d, "bad-op"))
+      | "iso", [f] => (match nat? f with | some f => if f == 0 then (d, "bad-op") else ok (s.step (.isolate t f)) | none => (d, "bad-op"))
+      | "endiso", [] => (match th.stack with | .region .. :: _ => ok (s.step (.endIsolate t)) | _ => (d, "bad-op"))
+      | "spawn", [] => spawned (s.step (.spawn t))
+      | "spawna", [dst] => (match nat? dst with | some dst => spawned (s.step (.spawnAff t dst)) | none => (d, "bad-op"))
+      | "enq", [] => spawned (s.step (.enqueue t))
+      | "crit", [] => spawned (s.step (.critical t))
+      | "setidle", [b] => (match nat? b with | some b => ok (s.step (.setIdle t (b != 0))) | none => (d, "bad-op"))
+      | "own", [] =>
+        (match curLoopOf s t with
+         | some _ => let s' := s.step (.own t); ({ d with st := s' }, (took s s' t).getD "none")
+         | none => (d, "bad-op"))
+      | "idle", [v, fa, hint] =>
+        (match nat? v, nat? fa, int? hint, curLoopOf s t with
+         | some v, some fa, some hint, some (i, _) =>
+           if v ≥ d.n || v == t then (d, "bad-op") else
+           let r := idlePass s t v (fa != 0) hint i
+           ({ d with st := r.1 }, r.2)
+         | _, _, _, _ => (d, "bad-op"))
+      | "critget", [hint] =>
+        (match int? hint, curLoopOf s t with
+         | some hint, some _ =>
+           let r := tryPop s t (fun k => .popCrit t k) (idxOf s.crit hint)
+           ({ d with st := r.1 }, r.2.getD "none")
+         | _, _ => (d, "bad-op"))
+      | _, _ => (d, "bad-op")
+  | _ => (d, "bad-op")
+
+end IsoDrv
+
 def drivers : List (String × Proto.Driver) := [
   ("c16", Proto.pureDriver C16Drv.drive),
   ("c16m", { σ := World, init := World.init 0, step := C16Drv.driveWorld }),
   ("c16gc", { σ := GC, init := { preferMin := true, dflt := 1 }, step := C16Drv.driveGC }),
   ("c16slots", { σ := C16Drv.SD, init := {}, step := C16Drv.driveSlots }),
-  ("c16pend", { σ := C16Drv.PD, init := {}, step := C16Drv.drivePend })
+  ("c16pend", { σ := C16Drv.PD, init := {}, step := C16Drv.drivePend }),
+  ("c16mand", { σ := MandDrv.MD, init := {}, step := MandDrv.drive }),
+  ("c16iso", { σ := IsoDrv.ID, init := {}, step := IsoDrv.drive })
 ]
 
 def main (args : List String) : IO UInt32 := Proto.mainOf drivers args
